@@ -16,6 +16,7 @@ EXPLANATION = ('MUST-PASS: a message decrypted with the secrets of a past epoch 
                'same group). TRIM: the in-memory store trims to the retention limit on every write and refuses a zero limit; the SQLite '
                'store deletes old epochs inside the write transaction. Only these structural clauses are decided: the exact window '
                'arithmetic and SQL semantics are not (statement texts are opaque).')
+EXPLANATION += ' TIERED-LOOKUP: a retained epoch is found in whichever tier holds it (plain guarded offset into the unwritten epochs; older epochs stay reachable).'
 ASSUMPTIONS = ['provider agreement on the window boundary is value-level and not decided']
 
 
